@@ -341,6 +341,17 @@ func (b *BlockList) RemoveBatch(keys []string) int {
 // setLocked applies a single Set in memory. Caller must hold b.mu.
 // Returns false if the key is whitelisted (caller should not save).
 func (b *BlockList) setLocked(key string) bool {
+	// The persisted list is one entry per line, read back field by field.
+	// A key holding whitespace or '#', or too long to be a domain name,
+	// would be accepted here, block nothing it appears to name, and come
+	// back from the file as something else - another name, the root, or
+	// a line the reader gives up on together with everything after it.
+	if strings.ContainsAny(key, " \t\r\n\v\f#") {
+		return false
+	}
+	if _, ok := dns.IsDomainName(strings.TrimPrefix(key, "*.")); !ok {
+		return false
+	}
 	key = dns.CanonicalName(key)
 
 	// Refuse to add a block the whitelist would shadow. Exists matches the
